@@ -1510,6 +1510,8 @@ struct TransitionBase {
 	#pragma warning(pop)
 #endif
 
+#pragma pack(pop)
+
 template <typename TPayload>
 struct TransitionT final
 	: TransitionBase
@@ -1586,8 +1588,6 @@ struct TransitionT<void> final
 {
 	using TransitionBase::TransitionBase;
 };
-
-#pragma pack(pop)
 
 }
 
@@ -1715,6 +1715,8 @@ operator == (const TaskBase& lhs,
 		   lhs.destination == rhs.destination;
 }
 
+#pragma pack(pop)
+
 template <typename TPayload>
 struct TaskT final
 	: TaskBase
@@ -1764,8 +1766,6 @@ struct TaskT<void> final
 {
 	using TaskBase::TaskBase;
 };
-
-#pragma pack(pop)
 
 }
 }
